@@ -71,6 +71,42 @@ func (k *kase) key() string {
 	return fmt.Sprintf("%x", h.Sum64())
 }
 
+// chkClass names the model-level invariant clause an operation is checked by in TLC
+// (GoMem.tla: chk.c), so that the evidence shows the invariants are not vacuous.
+func chkClass(o op) string {
+	val := o.X == "int" || o.X == "A" || o.X == "S" || o.X == "AS"
+	switch o.K {
+	case "AssignVar", "Deref":
+		if val {
+			return "CopyIndependence/copy"
+		}
+		return "ShareIdentity/share"
+	case "ReturnComposite":
+		return "CopyIndependence/copy"
+	case "SetThroughPtr":
+		if o.X == "S" {
+			return "CopyIndependence/copy"
+		}
+	case "PassByValue":
+		if o.X == "A" || o.X == "S" || o.X == "AS" {
+			return "CopyIndependence/pass"
+		}
+	case "Box":
+		return "CopyIndependence/hidden-copy"
+	case "Capture":
+		if o.X != "ref" {
+			return "CopyIndependence/hidden-copy"
+		}
+	case "BindMV":
+		if o.X == "sum" {
+			return "CopyIndependence/hidden-copy"
+		}
+	case "RangeArray":
+		return "CopyIndependence/range"
+	}
+	return ""
+}
+
 func opSig(o op) string {
 	s := o.K
 	if o.X != "" {
@@ -152,6 +188,7 @@ type checker struct {
 	unlisted     map[string]int
 	kinds        map[string]int
 	corroborated map[string]int
+	invCases     map[string]int
 }
 
 var (
@@ -298,6 +335,9 @@ func (ck *checker) process(cases []*kase, par int, nativeEvery int) {
 		c.TracesVsImpl++
 		for _, o := range s.k.B.Ops {
 			ck.kinds[o.K]++
+			if cl := chkClass(o); cl != "" {
+				ck.invCases[cl]++
+			}
 		}
 		ck.mu.Unlock()
 		for x, o := range s.k.B.Ops {
@@ -329,18 +369,26 @@ func (ck *checker) process(cases []*kase, par int, nativeEvery int) {
 		}
 		var present []*construct
 		for ci := range constructs {
-			for x, o := range s.k.B.Ops {
-				if x < s.step && constructs[ci].match(o) {
+			for _, o := range s.k.B.Ops {
+				if constructs[ci].match(o) {
 					present = append(present, &constructs[ci])
 					break
 				}
 			}
 		}
-		for _, p := range present {
-			atts = append(atts, attempt{s, []*construct{p}})
-		}
-		if len(present) > 1 {
-			atts = append(atts, attempt{s, present})
+		// every non-empty subset, smallest first (the first agreeing one is taken)
+		for size := 1; size <= len(present); size++ {
+			for mask := 1; mask < 1<<len(present); mask++ {
+				var set []*construct
+				for b, p := range present {
+					if mask&(1<<b) != 0 {
+						set = append(set, p)
+					}
+				}
+				if len(set) == size {
+					atts = append(atts, attempt{s, set})
+				}
+			}
 		}
 	}
 	if len(atts) > 0 {
@@ -467,6 +515,21 @@ var constructs = []construct{
 		func(o op) bool { return o.K == "SetLit" && o.X == "S" && len(o.D.Sel) == 0 }},
 	{"F-C04-2", "Box(S): value of a struct type with methods stored in an interface{}",
 		func(o op) bool { return o.K == "Box" && o.X == "S" }},
+	{"F-C04-3", "BindMV: method value whose receiver operand is addressable (value receiver), or reached through a pointer (pointer receiver)",
+		func(o op) bool {
+			if o.K != "BindMV" {
+				return false
+			}
+			if o.X == "sum" {
+				return o.S.R != "ms"
+			}
+			for _, n := range o.S.Sel {
+				if n == 0 {
+					return true
+				}
+			}
+			return false
+		}},
 }
 
 // verdict records one deviating history.
@@ -600,6 +663,20 @@ type family struct {
 	excl      []string
 }
 
+func without(xs []string, drop ...string) []string {
+	var r []string
+outer:
+	for _, x := range xs {
+		for _, d := range drop {
+			if x == d {
+				continue outer
+			}
+		}
+		r = append(r, x)
+	}
+	return r
+}
+
 func tlaSet(xs []string) string {
 	q := make([]string, len(xs))
 	for i, x := range xs {
@@ -628,7 +705,7 @@ func main() {
 }
 
 func newChecker(c *fw.Ctx) *checker {
-	return &checker{c: c, seen: map[string]bool{}, bySig: map[string]int{}, unlisted: map[string]int{}, kinds: map[string]int{}, corroborated: map[string]int{}}
+	return &checker{c: c, seen: map[string]bool{}, bySig: map[string]int{}, unlisted: map[string]int{}, kinds: map[string]int{}, corroborated: map[string]int{}, invCases: map[string]int{}}
 }
 
 func run(c *fw.Ctx) error {
@@ -695,17 +772,27 @@ var fullPool = []string{"a", "b", "s", "t", "l", "k", "ll", "as", "ms", "m", "p"
 // each of them, restricted to the places that can be written with the family's roots.
 func families(quick bool) []family {
 	ct := []string{"A", "S", "L", "AS", "PI", "F", "M"}
+	bindKinds := []string{"BindMV", "CallFunc", "Capture", "SetField", "SetElem", "SetThroughPtr", "SetLit", "AssignVar", "AddrOf", "Box", "Unbox", "Append"}
 	fs := []family{
-		{name: "values", roots: []string{"a", "b", "s", "as", "i", "e"}, init: "rich", steps: 2, maxSel: 2, maxIdx: 2, copyTypes: ct},
-		{name: "slices", roots: []string{"l", "k", "ll", "a", "i"}, init: "rich", steps: 2, maxSel: 2, maxIdx: 2, copyTypes: ct},
-		{name: "maps", roots: []string{"ms", "m", "s", "i"}, init: "rich", steps: 2, maxSel: 2, maxIdx: 2, copyTypes: ct},
-		{name: "pointers", roots: []string{"p", "q", "ps", "s", "a", "i"}, init: "rich", steps: 2, maxSel: 2, maxIdx: 2, copyTypes: ct},
-		{name: "funcs", roots: []string{"f1", "f2", "e", "a", "s", "i"}, init: "rich", steps: 2, maxSel: 2, maxIdx: 2, copyTypes: ct},
-		{name: "zero", roots: []string{"a", "s", "l", "ll", "ms", "m", "p", "ps", "i", "f1", "e"}, init: "zero", steps: 2, maxSel: 1, maxIdx: 1, copyTypes: ct},
+		{name: "values", roots: []string{"a", "s", "e"}, init: "rich", steps: 2, maxSel: 1, maxIdx: 1, copyTypes: ct},
+		{name: "nested", roots: []string{"as", "s"}, init: "rich", steps: 2, maxSel: 1, maxIdx: 1, copyTypes: ct},
+		{name: "slices", roots: []string{"l", "k", "a"}, init: "rich", steps: 2, maxSel: 1, maxIdx: 1, copyTypes: ct},
+		{name: "maps", roots: []string{"ms", "m", "s"}, init: "rich", steps: 2, maxSel: 1, maxIdx: 1, copyTypes: ct},
+		{name: "pointers", roots: []string{"p", "ps", "s"}, init: "rich", steps: 2, maxSel: 1, maxIdx: 1, copyTypes: ct},
+		{name: "funcs", roots: []string{"f1", "s", "ps", "e"}, kinds: bindKinds, init: "rich", steps: 3, maxSel: 1, maxIdx: 1, copyTypes: []string{"S", "F"}},
+		{name: "zero", roots: []string{"s", "l", "m", "p", "e", "f1"}, init: "zero", steps: 2, maxSel: 1, maxIdx: 1, copyTypes: ct},
 	}
 	if !quick {
-		for i := range fs {
-			fs[i].maxSel = 3
+		fs = []family{
+			{name: "values", roots: []string{"a", "b", "s", "e"}, init: "rich", steps: 2, maxSel: 2, maxIdx: 1, copyTypes: ct},
+			{name: "nested", roots: []string{"as", "i"}, init: "rich", steps: 2, maxSel: 2, maxIdx: 1, copyTypes: ct},
+			{name: "slices", roots: []string{"l", "k", "ll"}, kinds: without(allKinds, "Slice3"), init: "rich", steps: 2, maxSel: 1, maxIdx: 1, copyTypes: ct},
+			{name: "slices2", roots: []string{"l", "a", "s", "i"}, init: "rich", steps: 2, maxSel: 2, maxIdx: 1, copyTypes: ct},
+			{name: "maps", roots: []string{"ms", "m", "s", "i"}, init: "rich", steps: 2, maxSel: 2, maxIdx: 2, copyTypes: ct},
+			{name: "pointers", roots: []string{"p", "q", "ps", "s", "i"}, init: "rich", steps: 2, maxSel: 2, maxIdx: 1, copyTypes: ct},
+			{name: "funcs", roots: []string{"f1", "s", "as", "ps", "ms", "e"}, kinds: bindKinds, init: "rich", steps: 3, maxSel: 1, maxIdx: 1, copyTypes: []string{"S", "F"}},
+			{name: "funcs2", roots: []string{"f1", "f2", "e", "a", "s", "i"}, init: "rich", steps: 2, maxSel: 1, maxIdx: 1, copyTypes: ct},
+			{name: "zero", roots: []string{"a", "s", "l", "ll", "ms", "m", "p", "ps", "i", "f1", "e"}, init: "zero", steps: 2, maxSel: 1, maxIdx: 1, copyTypes: ct},
 		}
 	}
 	return fs
@@ -720,8 +807,10 @@ func (ck *checker) generate() error {
 			jobs = append(jobs, tlcJob{fam: f})
 		}
 	}
-	simJVMs, simNum := c.Pick(4, 16), c.Pick(50, 320)
-	simFam := family{name: "sim", roots: fullPool, init: "rich", steps: 25, maxSel: 3, maxIdx: 3, copyTypes: []string{"int", "A", "S", "L", "AS", "PI", "F", "M", "MS"}}
+	simJVMs, simNum := c.Pick(2, 16), c.Pick(100, 320)
+	bfsWorkers := c.Pick(2, 2)
+	simFam := family{name: "sim", roots: fullPool, init: "rich", steps: 25, maxSel: 3, maxIdx: 3, copyTypes: []string{"int", "A", "S", "L", "AS", "PI", "F", "M", "MS"},
+		excl: []string{"F_C04_1", "F_C04_2", "F_C04_3"}}
 	if only == "" || only == "sim" {
 		for j := 0; j < simJVMs; j++ {
 			f := simFam
@@ -759,7 +848,7 @@ func (ck *checker) generate() error {
 	var mu sync.Mutex
 	var tlcCPU time.Duration
 	emitted := map[string]int{}
-	lanes := 2 // at most 8 JVM worker threads at once
+	lanes := 3 // at most 8 JVM worker threads at once (BFS jobs use 2 workers, simulations 1)
 	for l := 0; l < lanes; l++ {
 		tw.Add(1)
 		go func() {
@@ -784,8 +873,11 @@ func (ck *checker) generate() error {
 						return // a prefix: it is replayed as part of the histories that extend it
 					}
 					n++
+					if os.Getenv("VERIF_C04_TLCONLY") != "" { // development aid: count only
+						return
+					}
 					scopes := []string{"local", "global"}
-					if c.Quick() || j.sim {
+					{ // one scope variant per history, chosen by a hash of the history
 						h := fnv.New32a()
 						x, _ := json.Marshal(b.Ops)
 						h.Write(x)
@@ -800,7 +892,7 @@ func (ck *checker) generate() error {
 				}
 				name := fmt.Sprintf("gen.%s.cfg", j.fam.name)
 				o := fw.TLCOpts{Dir: "spec/core", Module: "GoMem", Cfg: name, Files: map[string][]byte{name: j.fam.cfg(j.sim)},
-					Simulate: j.sim, Num: j.num, Depth: j.fam.steps + 2, Seed: j.seed, Workers: 4, OnBeh: on, Timeout: 20 * time.Minute, HeapMB: 3000, Coverage: coverage && !j.sim}
+					Simulate: j.sim, Num: j.num, Depth: j.fam.steps + 2, Seed: j.seed, Workers: bfsWorkers, OnBeh: on, Timeout: 20 * time.Minute, HeapMB: 3000, Coverage: coverage && !j.sim}
 				if j.sim {
 					o.Workers = 1
 				}
@@ -853,6 +945,7 @@ func (ck *checker) generate() error {
 	c.Extra["native_reference_programs"] = ck.native
 	c.Extra["native_reference_agreeing_with_model"] = ck.nativeOK
 	c.Extra["operations_by_kind"] = ck.kinds
+	c.Extra["model_invariant_cases"] = ck.invCases
 	c.Extra["deviations_by_signature"] = ck.bySig
 	c.Extra["tlc_wall_s_sum"] = tlcCPU.Seconds()
 	fmt.Printf("C04: %d programs (%d steps) run, %d deviating (%d unlisted signatures), %d native reference programs (%d agree with the model), TLC %.1fs (sum over JVMs)\n",
